@@ -289,22 +289,30 @@ func renderAdjust(s Script) *api.ContainerAdjustment {
 	}
 	w := s.Plugin + 1
 	a := &api.ContainerAdjustment{}
-	for pass := 0; pass < 2; pass++ { // pass 0: removal markers, pass 1: everything else
+	marker := func(op Op) {
+		switch op.Fam {
+		case "ann":
+			a.RemoveAnnotation(op.Key)
+		case "env":
+			a.RemoveEnv(op.Key)
+		case "mount":
+			a.RemoveMount(op.Key)
+		case "dev":
+			a.RemoveDevice(op.Key)
+		}
+	}
+	for pass := 0; pass < 3; pass++ { // pass 0: removal markers, pass 1: everything else, pass 2: late markers (Rev)
 		for _, op := range s.Ops {
 			isDel := op.Act == "del" || op.Act == "reset"
 			if pass == 0 {
-				if !isDel {
-					continue
+				if isDel && !op.Rev {
+					marker(op)
 				}
-				switch op.Fam {
-				case "ann":
-					a.RemoveAnnotation(op.Key)
-				case "env":
-					a.RemoveEnv(op.Key)
-				case "mount":
-					a.RemoveMount(op.Key)
-				case "dev":
-					a.RemoveDevice(op.Key)
+				continue
+			}
+			if pass == 2 {
+				if isDel && op.Rev {
+					marker(op)
 				}
 				continue
 			}
